@@ -12,6 +12,7 @@ from hypothesis import strategies as st
 
 from refs import astm_rainflow
 from refs import cycle_ref as cr
+from vlib import defaults
 from vlib.core import Part
 
 PROPERTY = "C10"
@@ -1079,4 +1080,7 @@ PARTS = [
          quick=(1, 100), thorough=(1, 1000)),
     Part("fdepsd_g2_third_tie", oracle_fde_g2tie, strategy=fde_g2tie_cases, quick=(2, 12),
          thorough=(4, 60)),
+    # documented defaults: leaving a keyword out = passing its documented value (vlib/defaults.py)
+    Part("defaults", defaults.make_oracle("C10"), enum=defaults.make_enum(), quick=(1, None), thorough=(1, None),
+         exhaustive=True),
 ]
